@@ -958,6 +958,9 @@ def register_read(R):
             ("int-columns-stored-as-int32-float-columns-as-float32", from_dtypes),
             ("comments-are-the-comments-read-in-order-in-a-list-of-the-tree's-own", from_comments),
             ("source-is-the-absolute-path-for-a-path-source-else-empty", from_source),
+            # the two labels of the earlier (weaker) contract, kept so that obligation names stay stable
+            ("tree-is-built-from-exactly-the-table-and-comments-read", lambda E, v, o: z3.And(to_z3(E.truth(from_columns(E, v, o)), "bool"), to_z3(E.truth(from_comments(E, v, o)), "bool"))),
+            ("something-is-returned", lambda E, v, o: v["result"] is not None),
         ],
         notes="any exception class read_swc may raise (ValueError for a bad file, OSError for an unreadable one) must leave as ValueError; "
               "Tree.from_data_frame / Tree.__init__ / padding1d / DictSWC.__init__ are INLINED (real code), read_swc enters through its contract",
